@@ -176,9 +176,9 @@ func (s *Store) TokenRequestByRefreshToken(_ context.Context, refreshToken strin
 
 // terminate removes all tokens of (userID, clientID) and records the pair; mu is held.
 func (s *Store) terminate(userID, clientID string) {
-	for id, t := range s.tokens {
+	for _, t := range s.tokens {
 		if t.ClientID == clientID && t.Subject == userID {
-			delete(s.tokens, id)
+			t.Revoked = true // the record is kept (like a revoked token) so that later lookups still know its owner
 		}
 	}
 	for tok, t := range s.refresh {
